@@ -181,6 +181,9 @@ def run_check(prop, tier, seed, replay=None):
     thm = build.check_properties(prop)
     if not thm['ok']:
         err = _first_error(thm['output']) or _first_error(status.log) or thm['output'][-400:]
+        if status.make_failed_files:
+            # the property file fails because a file it depends on failed in the build: name that file and its error
+            err = 'the build of %s failed: %s' % (', '.join(status.make_failed_files[:3]), _first_error(status.log) or err)
         broken.append('proof: coq/Properties/%s.v no longer checks: %s' % (prop, err))
     if not status.model_ok:
         broken.append('model: the executable model could not be built/extracted: %s' %
